@@ -132,7 +132,9 @@ func c17Thread(s *c17Shared, seed uint64, nOps int) []string {
 					emit("ev[%d].MarshalJSON=%d/%s", i, len(b), okErr(err))
 				}
 			case c < 55: // create
-				name := Pick(rng, []string{psa.Profile1Name, psa.Profile2Name, "", s.ext[0].Name, s.ext[1].Name, "nope"})
+				name := Pick(rng, []string{psa.Profile1Name, psa.Profile2Name, "", s.ext[0].Name, s.ext[1].Name, "nope",
+					// near-miss spellings: unknown, every time, whoever asked before
+					" " + psa.Profile1Name, "psa_iot_profile_1", "HTTP://ARM.COM/PSA/2.0.0", psa.Profile2Name + " ", strings.ToUpper(s.ext[1].Name)})
 				cl, err := psa.NewClaims(name)
 				emit("NewClaims(%q)=%s/%T", name, okErr(err), cl)
 				if err == nil {
